@@ -87,8 +87,12 @@ fn fast_bitmap_transfer(buffer: &mut Vec<u32>, width: usize, bitmap: BitmapEvent
 
     // Use some unsafe method to faster
     // data transfer between buffers
+    if bitmap_dest_bottom < bitmap_dest_top || bitmap_dest_right < bitmap_dest_left {
+        return Err(Error::RdpError(RdpError::new(RdpErrorKind::InvalidSize, "Image have an inverted rectangle")))
+    }
+
     unsafe {
-        let data_aligned :Vec<u32> = transmute_vec(data);
+        let data_aligned :Vec<u32> = data.chunks_exact(4).map(|p| u32::from_ne_bytes([p[0], p[1], p[2], p[3]])).collect();
         for i in 0..(bitmap_dest_bottom - bitmap_dest_top + 1) {
             let dest_i = (i + bitmap_dest_top) * width + bitmap_dest_left;
             let src_i = i * bitmap_width;
